@@ -61,6 +61,17 @@ type scheduler struct {
 
 type killedG struct{}
 
+// SchedEvent is one hand-off of the baton on a path: goroutine From arrived
+// at a switch point (Kind point/block/exit/drain, Site = position of the
+// call), and goroutine Next runs the following segment. The sequence of
+// events is what the forced-schedule native replay re-enacts.
+type SchedEvent struct {
+	From int    `json:"from"`
+	Kind string `json:"kind"`
+	Site string `json:"site"`
+	Next int    `json:"next"`
+}
+
 func (in *Interp) ensureSched() *scheduler {
 	if in.sched == nil {
 		main := &goroutine{id: 0, resume: make(chan struct{}, 1), vc: vclock{0: 1}}
@@ -184,6 +195,23 @@ func (s *scheduler) handoff(self *goroutine) {
 			next = cands[in.choose("sched", len(cands))]
 		}
 	}
+	from := -1
+	if s.cur != nil {
+		from = s.cur.id
+	}
+	kind := in.handoffKind
+	if self == nil {
+		kind = "exit"
+	}
+	if kind == "" {
+		kind = "point"
+	}
+	site := ""
+	if in.lastCallPos.IsValid() {
+		site = in.prog.Fset.Position(in.lastCallPos).String()
+	}
+	in.schedLog = append(in.schedLog, SchedEvent{From: from, Kind: kind, Site: site, Next: next.id})
+	in.handoffKind = ""
 	if next == self {
 		return
 	}
@@ -253,6 +281,7 @@ func (s *scheduler) block(in *Interp, fr *frame, what string, ready func() bool)
 	g := s.cur
 	g.blocked = ready
 	g.what = what
+	in.handoffKind = "block"
 	s.handoff(g)
 	g.blocked = nil
 }
@@ -293,6 +322,7 @@ func (s *scheduler) drain(in *Interp) {
 			return true
 		}
 		main.what = "end of harness"
+		in.handoffKind = "drain"
 		s.handoff(main)
 		main.blocked = nil
 	}
